@@ -119,6 +119,48 @@ pub fn exec_snap(ops: Vec<Op>, seed: u64, per_op: bool) -> Case {
         let mut outs: Vec<String> = Vec::new();
         let mut tags: Vec<String> = early_tags;
         let names: Vec<u32> = vec![4, 8, 2, 12, 6, 16, 22];
+        // path compression first (nothing else has touched the union-find since the dump): resolve a random sequence of
+        // ids through the public `find_applied_id` and compare the table afterwards with the model's write-backs
+        {
+            let n = eg.verif_measure().0;
+            let mut order: Vec<usize> = (0..n).collect();
+            rng.shuffle(&mut order);
+            let extra = rng.below(n + 1);
+            for _ in 0..extra {
+                order.push(rng.below(n));
+            }
+            if rng.chance(1, 3) {
+                order.truncate(rng.below(order.len() + 1));
+            }
+            let uf_lines = |sn: &str| -> Vec<(usize, String)> {
+                let mut v: Vec<(usize, String)> = sn
+                    .split('~')
+                    .filter(|l| l.starts_with("uf "))
+                    .filter_map(|l| {
+                        let mut it = l.split(' ');
+                        it.next();
+                        Some((it.next()?.parse().ok()?, it.next()?.to_string()))
+                    })
+                    .collect();
+                v.sort();
+                v
+            };
+            let r = guarded(|| {
+                for i in &order {
+                    let idn = eg.mk_identity_applied_id(Id(*i));
+                    let _ = eg.find_applied_id(&idn);
+                }
+            });
+            let after = eg.verif_snapshot(|_| "-".to_string()).trim_end().replace('\n', "~");
+            qs.push(format!("compress {}", if order.is_empty() { "-".to_string() } else { order.iter().map(|i| i.to_string()).collect::<Vec<_>>().join(",") }));
+            outs.push(match r {
+                Ok(()) => uf_lines(&after).into_iter().map(|(_, a)| a).collect::<Vec<_>>().join(","),
+                Err(_) => "panic".into(),
+            });
+            if uf_lines(&after) != uf_lines(&snap) {
+                tags.push("compression-rewrote-an-entry".into());
+            }
+        }
         qs.push("inv".into());
         outs.push("1".into());
         qs.push("ids".into());
@@ -217,10 +259,78 @@ pub fn exec_snap(ops: Vec<Op>, seed: u64, per_op: bool) -> Case {
     }
 }
 
+/// long union-find chains: many small classes merged pairwise, each union touching only the two classes it names, so
+/// the entries of classes merged earlier keep pointing at leaders that were deprecated later (what path compression
+/// has to chase); some with slots (permuted and partially dropped arguments along the chain)
+fn gen_chain(rng: &mut Rng) -> Vec<Op> {
+    let leaf = |v: usize, sl: &[u32]| ATerm { v, fields: sl.iter().map(|s| CField::Slot(*s)).collect(), children: vec![] };
+    let sym = |s: String| ATerm { v: 16, fields: vec![CField::Lit(s)], children: vec![] };
+    let un = |a: ATerm| ATerm { v: 13, fields: vec![CField::App], children: vec![a] };
+    let n = rng.range(4, 10);
+    let mut ops: Vec<Op> = Vec::new();
+    let kind = rng.below(3);
+    for i in 0..n {
+        let t = match kind {
+            0 => sym(format!("c{i}")),
+            1 => {
+                // same two slots, in either order, under i applications of h
+                let mut t = if rng.chance(1, 2) { leaf(7, &[4, 8]) } else { leaf(7, &[8, 4]) };
+                for _ in 0..i {
+                    t = un(t);
+                }
+                t
+            }
+            _ => {
+                // alternately one and two slots: arguments get dropped along the chain
+                let mut t = if i % 2 == 0 { leaf(7, &[4, 8]) } else { leaf(10, &[4]) };
+                for _ in 0..i {
+                    t = un(t);
+                }
+                t
+            }
+        };
+        ops.push(Op::Add(t));
+    }
+    // pairwise unions in a random order of adjacent pairs, then (sometimes) a final bridge
+    let mut pairs: Vec<(usize, usize)> = (0..n - 1).map(|i| (i, i + 1)).collect();
+    match rng.below(4) {
+        0 => {}
+        1 => rng.shuffle(&mut pairs),
+        _ => {
+            // tournament: equal-sized blocks are merged, so half of the members end up one hop further from the leader
+            // each round (union by size alone never builds a chain); the two classes of a union are named through
+            // random members of their blocks, so the other members are not compressed on the way
+            pairs.clear();
+            let mut stride = 1;
+            while stride < n {
+                let mut i = 0;
+                while i + stride < n {
+                    let a = i + rng.below(stride);
+                    let b2 = i + stride + rng.below(stride.min(n - i - stride));
+                    pairs.push((a, b2));
+                    i += 2 * stride;
+                }
+                stride *= 2;
+            }
+        }
+    }
+    if rng.chance(1, 3) {
+        pairs.truncate(rng.range(2, pairs.len()));
+    }
+    for (i, j) in pairs {
+        if rng.chance(1, 2) {
+            ops.push(Op::Union(i, j));
+        } else {
+            ops.push(Op::Union(j, i));
+        }
+    }
+    ops
+}
+
 pub fn run(ctx: &mut Ctx) {
     for _ in 0..ctx.count {
         let mut rng = ctx.rng.fork();
-        let (ops, _) = gen_history(&mut rng);
+        let (ops, _) = if rng.chance(1, 4) { (gen_chain(&mut rng), "chain") } else { gen_history(&mut rng) };
         let seed = rng.next();
         let per_op = ctx.param("per_op", 0) == 1;
         ctx.emit(exec_snap(ops, seed, per_op));
